@@ -93,6 +93,12 @@ void runSlot(const Scn &scn, Out &out)
             while (obs->size() > mark) obs->removeLast();
             continue;
         }
+        if (p[0] == "rereg") {
+            // the application registers the name again (a functor that records nothing) while a request may be waiting
+            // for its body: the waiting request keeps the registration it was routed to.  Not an event of the model.
+            handler.registerMethod(un16s(p[1]), [](Socket *) {}, true);
+            continue;
+        }
         if (!(k > 0 && !sock)) *obs << QString("e:%1").arg(k);
         ++k;
         if (p[0] == "new") {
